@@ -479,9 +479,13 @@ fn outcome_str(o: &Outcome) -> String {
   }
 }
 
+// --verbose must not change what the loop does: a share of the runs has it on (the harness' stderr is silenced)
+thread_local! { static VERBOSE_RUN: std::cell::Cell<bool> = std::cell::Cell::new(false); }
+
 fn run_real<D: ScriptedDriver>(driver: &mut D, mappings: &Vec<Mapping>) -> Outcome {
   let layout = Layout { mappings: mappings.clone() };
-  let res = catch_unwind(AssertUnwindSafe(|| run_one_device(driver, layout, false)));
+  let verbose = VERBOSE_RUN.with(|v| v.get());
+  let res = catch_unwind(AssertUnwindSafe(|| run_one_device(driver, layout, verbose)));
   match res {
     Ok(Ok(())) => Outcome::Ok,
     Ok(Err(m)) => Outcome::Err(m),
@@ -660,6 +664,11 @@ pub fn main(args: &[String]) -> i32 {
   let scale: usize = a.get("scale").map(|s| s.parse().unwrap()).unwrap_or(1);
   let thorough = tier == "thorough";
   std::fs::create_dir_all(&out_dir).unwrap();
+  // the verbose runs of the real loop write to stderr: send it to /dev/null (this command reports on stdout)
+  unsafe {
+    let null = libc::open(b"/dev/null\0".as_ptr() as *const libc::c_char, libc::O_WRONLY);
+    if null >= 0 { libc::dup2(null, 2); libc::close(null); }
+  }
   let cases = std::sync::Arc::new(make_cases(seed, thorough, scale));
   let total = cases.len();
   let mut handles = vec![];
@@ -674,6 +683,7 @@ pub fn main(args: &[String]) -> i32 {
       for (i, c) in cases.iter().enumerate() {
         if i % shards != sh { continue; }
         let mut d = SimDriver::new(&c.plan, c.seed);
+        VERBOSE_RUN.with(|v| v.set(i % 3 == 2));
         let o = run_real(&mut d, &c.mappings);
         write_case(&mut w, &format!("{}", i), &c.tag, c.seed, None, &c.mappings, &d.recs, &o, d.unread_at_exit);
         stats.0 += 1; stats.1 += d.recs.len();
